@@ -269,6 +269,95 @@ Fixpoint lyd_merge_list (skip : bool) (pool : nat) (s : lst) (xs : list A) : opt
       end
   end.
 
+(* ---------- lyd_unlink_siblings(instance at position i): lyds_split ----------
+   The instance and ALL following siblings are unlinked as a chain.  i = 0: the chain starts with the leader, no lyds
+   function is called, the leader keeps metadata and tree.  i > 0: lyds_split(leader, node):
+       rbt = lyds_get_rb_tree(leader, &root_meta);
+       if (!rbt) { the instances from node on are just unlinked }
+       else for node and every following instance: rb_remove_node(root_meta, &rbt, iter, &rbn) (rb_find + rb_remove, nothing
+            when the node is not in the tree), unlink; RBT_SET(root_meta, rbt);
+   The split-off run has no metadata.  Answer: (remaining list, split-off run). *)
+Fixpoint remove_run (t : tree) (xs : list A) : option tree :=
+  match xs with
+  | [] => Some t
+  | x :: r =>
+    match t with
+    | Leaf => remove_run t r
+    | Node _ _ _ _ =>
+      match rb_find cmp ideq t x with
+      | None => remove_run t r
+      | Some j =>
+        match rb_remove t j with
+        | None => None
+        | Some t' => remove_run t' r
+        end
+      end
+    end
+  end.
+
+Definition lyds_split (s : lst) (i : nat) : option (lst * lst) :=
+  match i with
+  | O => Some (mkLst [] None, s)
+  | S _ =>
+    match rbt s with
+    | Some (Node c l k r) =>
+      match remove_run (Node c l k r) (skipn i (sibs s)) with
+      | None => None
+      | Some t' => Some (mkLst (firstn i (sibs s)) (Some t'), mkLst (skipn i (sibs s)) None)
+      end
+    | o => Some (mkLst (firstn i (sibs s)) o, mkLst (skipn i (sibs s)) None)
+    end
+  end.
+
+(* ---------- lyd_insert_child / lyd_insert_sibling of a chain of >= 2 siblings: lyd_move_nodes -> lyds_merge ----------
+   c = the run of instances of this (leaf-)list inside the chain.  No instance in the target: the run is moved as it
+   is, the leader keeps metadata and tree (lyd_move_nodes_at_once / lyd_move_nodes_ordby_schema).  Otherwise lyds_merge:
+     source without tree (lyds_merge_nodes1, after lyds_additionally_create_rb_tree of the target if it has no tree
+       either): every source instance in sibling order: rb_insert + lyds_link_data_node, i.e. what lyds_insert does;
+     both with tree (lyds_merge_nodes3): the same for the source instances in the order of rb_iter_traversal over the
+       source tree, which is its POST-order (a node is visited when it has become a leaf);
+     target without, source with tree (lyds_merge_nodes2): the TARGET instances are inserted into the source tree in
+       sibling order, the source instances are moved between them in tree order (front / among / back), the tree and
+       its metadata move to the new leader.  lyds_merge_nodes2_among walks rb_next() from the previous target node to
+       the new one: when the target instances are not sorted it walks into NULL (answer None). *)
+Fixpoint postorder (t : tree) : list A :=
+  match t with
+  | Leaf => []
+  | Node _ l k r => postorder l ++ postorder r ++ [k]
+  end.
+
+Fixpoint insert_all (s : lst) (xs : list A) : option lst :=
+  match xs with
+  | [] => Some s
+  | x :: r => match lyds_insert s x false with Some s' => insert_all s' r | None => None end
+  end.
+
+Fixpoint rb_insert_all (t : tree) (xs : list A) : option tree :=
+  match xs with
+  | [] => Some t
+  | x :: r => match rb_insert cmp t x with Some t' => rb_insert_all t' r | None => None end
+  end.
+
+Definition lyds_merge (s c : lst) : option lst :=
+  match sibs s with
+  | [] => Some c
+  | _ :: _ =>
+    match rbt c with
+    | Some (Node sc sl sk sr) =>
+      match rbt s with
+      | Some (Node _ _ _ _) => insert_all s (postorder (Node sc sl sk sr))
+      | _ =>
+        if sortedb cmp (sibs s) then
+          match rb_insert_all (Node sc sl sk sr) (sibs s) with
+          | Some t => Some (mkLst (inorder t) (Some t))
+          | None => None
+          end
+        else None
+      end
+    | _ => insert_all s (sibs c)
+    end
+  end.
+
 (* lyd_unlink(node) for the instance at sibling position i: lyds_unlink() then lyd_unlink_ignore_lyds().
        rbt = lyds_get_rb_tree( *leader, &root_meta);
        if (!root_meta || LYD_NODE_IS_ALONE( *leader)) return;        -- an alone leader keeps its metadata and tree
@@ -376,6 +465,12 @@ Arguments reuse_tree {A}.
 Arguments lyds_insert2 {A}.
 Arguments has_key {A}.
 Arguments lyd_merge_list {A}.
+Arguments remove_run {A}.
+Arguments lyds_split {A}.
+Arguments postorder {A}.
+Arguments insert_all {A}.
+Arguments rb_insert_all {A}.
+Arguments lyds_merge {A}.
 Arguments Ins {A} x.
 Arguments Rem {A} i.
 Arguments rb_step {A}.
